@@ -98,6 +98,11 @@ Theorem C08_reached_fails : forall n k o pos,
   reaches n k o pos = true -> run n (plug k pos AFail) None o = Err EFail.
 Proof. exact reached_fails. Qed.
 
+Theorem C08_reached_fails_annotated : forall n k T o pos,
+  wf_case k pos T = true -> supported o ->
+  reaches n k o pos = true -> run n (plug k pos AFail) (Some T) o = Err EFail.
+Proof. exact reached_fails_annotated. Qed.
+
 (* observe_blames_iff_reached *)
 Theorem C08_reached_blames : forall n k T o pos s,
   wf_case k pos T = true -> supported o ->
